@@ -302,7 +302,7 @@ func c13(c *Ctx) {
 			missingAnchor(r, nme)
 		}
 	}
-	r.Floor("LEB128 rows (LEB.len, LEB.write, LEB.inv)", lebRules(c, true), 30)
+	r.Floor("LEB128 rows (LEB.len, LEB.write, LEB.inv)", lebRules(c, "full"), 42)
 	entries = append(entries, av1Setup(c)...)
 	boundsFor(c, "C13", entries)
 	r.Infof("CTR.lenprefix: %d length-prefix/data pair(s) recognised and reached", len(c.lenPairsSeen))
